@@ -420,6 +420,68 @@ async fn zero_window_cell(set: Arc<CertSet>, n: usize, role: String, mismatch: b
     }
 }
 
+/// The participants that stop reading share a connection with a healthy stream: a library client
+/// holds `lazy` subscriptions on topic A which it never reads, A is flooded until the publisher
+/// stalls, and the same client must still receive on topic B and open a stream on topic C.
+async fn lazy_subscribers_cell(set: Arc<CertSet>, lazy: usize, cellid: u64) -> Result<String, Fail> {
+    let class = format!("lazy-subscribers={lazy}");
+    let setup = |what: &str, e: String| fail("setup", what, format!("{what}: {e}"));
+    let addr = net::start_server(&set).map_err(|e| setup("server", e.to_string()))?;
+    let a = format!("/c17ns/lazy{cellid}");
+    let b = format!("/c17ns/lazyfree{cellid}");
+    let c = format!("/c17ns/lazynew{cellid}");
+    let lib = net::default_client(addr, &set).await.map_err(|e| setup("library client", e.to_string()))?;
+    let mut unread = Vec::new();
+    for _ in 0..lazy {
+        unread.push(lib.subscriber(&a).with_decoder(StringCodec).open().await.map_err(|e| setup("lazy subscriber", e.to_string()))?);
+    }
+    let mut sub_b = lib.subscriber(&b).with_decoder(StringCodec).open().await.map_err(|e| setup("subscriber on the other topic", e.to_string()))?;
+    // flood A from a raw peer on a connection of its own until a publish stalls
+    let ta = TopicName::try_from(a.as_str()).unwrap();
+    let raw = RawConn::connect(addr, &set.ca, Some(&set.client)).await.map_err(|e| setup("raw connect", e.to_string()))?;
+    let (mut flood, first) = raw.register(Frame::RegisterPublisher(PublisherPayload { topic: ta, retention_policy: 0, operations: vec![] })).await.map_err(|e| setup("flooding publisher", e.to_string()))?;
+    if first != Some(Frame::Ok) {
+        return Err(setup("flooding publisher", format!("answered {first:?}")));
+    }
+    let chunk = Bytes::from(vec![b'y'; 64 * 1024]);
+    let mut sent = 0usize;
+    while sent < 64 * 1024 * 1024 {
+        match tokio::time::timeout(Duration::from_secs(1), flood.send(Frame::Message(MessagePayload { headers: None, message: chunk.clone() }))).await {
+            Ok(Ok(())) => sent += chunk.len(),
+            Ok(Err(e)) => return Err(setup("flood", e.to_string())),
+            Err(_) => break,
+        }
+    }
+    // B: a fresh client publishes, the library client (which holds the unread subscriptions) must receive
+    let other = net::default_client(addr, &set).await.map_err(|e| setup("second client", e.to_string()))?;
+    let mut pub_b = other.publisher(&b).with_encoder(StringCodec).open().await.map_err(|e| fail("other-topic-blocked", &class, format!("a fresh client could not open a publisher on {b}: {e}")))?;
+    let got = tokio::time::timeout(Duration::from_secs(20), async {
+        loop {
+            pub_b.send("ping".to_string()).await.map_err(|e| format!("send: {e}"))?;
+            match tokio::time::timeout(Duration::from_millis(300), sub_b.next()).await {
+                Ok(Some(Ok(s))) if s == "ping" => return Ok::<(), String>(()),
+                Ok(Some(other)) => return Err(format!("subscriber yielded {other:?}")),
+                Ok(None) => return Err("subscriber ended".into()),
+                Err(_) => {}
+            }
+        }
+    })
+    .await;
+    let opened = tokio::time::timeout(Duration::from_secs(20), lib.publisher(&c).with_encoder(StringCodec).open()).await;
+    drop(unread);
+    let told = format!("a client holds {lazy} subscriptions on topic {a} which it does not read; {a} was flooded ({sent} bytes accepted before the publisher stalled)");
+    match got {
+        Ok(Ok(())) => {}
+        Ok(Err(e)) => return Err(fail("other-topic-blocked-for-the-same-client", &class, format!("{told}; its subscription on {b}: {e}"))),
+        Err(_) => return Err(fail("other-topic-blocked-for-the-same-client", &class, format!("{told}; messages published on {b} did not reach its subscription there within 20 s"))),
+    }
+    match opened {
+        Ok(Ok(_)) => Ok("other-topics-served-on-the-same-connection".into()),
+        Ok(Err(e)) => Err(fail("other-topic-blocked-for-the-same-client", &class, format!("{told}; opening a publisher on {c} failed: {e}"))),
+        Err(_) => Err(fail("other-topic-blocked-for-the-same-client", &class, format!("{told}; opening a publisher on {c} got no answer within 20 s"))),
+    }
+}
+
 fn cells(tier: &str) -> Vec<Value> {
     let ns: &[usize] = if tier == "thorough" { &[0, 1, 50, 99, 100, 101, 102, 103, 150, 163, 164, 165, 250, 400] } else { &[0, 99, 100, 101, 102, 150, 200] };
     let mut v = Vec::new();
@@ -444,6 +506,11 @@ fn cells(tier: &str) -> Vec<Value> {
     // a client of a healthy topic that also has registrations parked behind the stalled one
     v.push(json!({"cell": id, "family": "parked-on-victim", "parked_registrations": 3, "watch_s": if tier == "thorough" { 35 } else { 8 }}));
     id += 1;
+    // the peers that stop reading share a connection with streams of other topics
+    for lazy in if tier == "thorough" { vec![1usize, 3, 4, 6, 12] } else { vec![1, 6] } {
+        v.push(json!({"cell": id, "family": "lazy-subscribers", "unread_subscriptions": lazy}));
+        id += 1;
+    }
     for role in ["subscriber", "publisher", "replier", "requestor"] {
         for n in [1usize, 3] {
             if tier != "thorough" && n == 3 && role != "subscriber" {
@@ -473,6 +540,9 @@ pub async fn run(tier: &str, replaying: bool) -> ! {
             if c["family"].as_str() == Some("parked-on-victim") {
                 return (true, parked_on_victim_cell(set, c["parked_registrations"].as_u64().unwrap() as usize, c["watch_s"].as_u64().unwrap(), c["cell"].as_u64().unwrap()).await);
             }
+            if c["family"].as_str() == Some("lazy-subscribers") {
+                return (true, lazy_subscribers_cell(set, c["unread_subscriptions"].as_u64().unwrap() as usize, c["cell"].as_u64().unwrap()).await);
+            }
             if c["family"].as_str() == Some("zero-window") {
                 return (true, zero_window_cell(set, c["peers_without_credit"].as_u64().unwrap() as usize, c["role"].as_str().unwrap().to_string(), c["topic_has_other_pattern"].as_bool().unwrap_or(false), c["cell"].as_u64().unwrap()).await);
             }
@@ -488,7 +558,7 @@ pub async fn run(tier: &str, replaying: bool) -> ! {
     finish(
         rep,
         outs,
-        "every cell of: number N of further registrations on the stalled topic in {0,(1,50,)99,100,101,102,(103,)150,200(,163..165,250,400)} x order {stall first then N registrations, N registrations first then stall} x stalled pattern {pub/sub: never-reading subscriber + flooding publisher; request/reply: never-reading bound replier + flooding requestor}; per cell a fresh real server, topic A stalled by a raw subscriber that never reads plus a raw publisher flooding 64 KiB frames until a send takes longer than 1 s, N raw subscriber registrations on A (each awaits its Ok; a new QUIC connection every 50 streams), then the flooding client itself must round-trip a message on another topic over the same connection, and a fresh real client opens subscriber + publisher on topic B and must round-trip a message, each within 20 s. In the cells with an over-full queue a client of the library also asks to publish on the stalled topic and must then be able to use another topic from another task, and 40 unrelated topic names must all be joinable. Plus one many-connections cell: 140 (thorough 400) peers, each over a connection of its own, ask to join the stalled topic; every one of them must be able to connect and a fresh client must still round-trip on topic B. Plus one parked-on-victim cell: with A stalled and its queue full, a client exchanging messages on topic B also sends 3 registrations for A over the same connection (they park); its exchanges on B must keep working for 8 s (thorough 35 s, i.e. beyond any internal time-out). Plus zero-window cells: 1 or 3 peers register on topic A in each of the four roles over connections that grant the server no flow-control credit on their streams (the answer to their registration - Ok, or the refusal when topic A already exists with the other messaging pattern - can never be written); a fresh client must still round-trip a message on topic B. non-trivial = N > 0",
+        "every cell of: number N of further registrations on the stalled topic in {0,(1,50,)99,100,101,102,(103,)150,200(,163..165,250,400)} x order {stall first then N registrations, N registrations first then stall} x stalled pattern {pub/sub: never-reading subscriber + flooding publisher; request/reply: never-reading bound replier + flooding requestor}; per cell a fresh real server, topic A stalled by a raw subscriber that never reads plus a raw publisher flooding 64 KiB frames until a send takes longer than 1 s, N raw subscriber registrations on A (each awaits its Ok; a new QUIC connection every 50 streams), then the flooding client itself must round-trip a message on another topic over the same connection, and a fresh real client opens subscriber + publisher on topic B and must round-trip a message, each within 20 s. In the cells with an over-full queue a client of the library also asks to publish on the stalled topic and must then be able to use another topic from another task, and 40 unrelated topic names must all be joinable. Plus one many-connections cell: 140 (thorough 400) peers, each over a connection of its own, ask to join the stalled topic; every one of them must be able to connect and a fresh client must still round-trip on topic B. Plus one parked-on-victim cell: with A stalled and its queue full, a client exchanging messages on topic B also sends 3 registrations for A over the same connection (they park); its exchanges on B must keep working for 8 s (thorough 35 s, i.e. beyond any internal time-out). Plus lazy-subscriber cells: a client of the library holds 1 or 6 (thorough 1,3,4,6,12) subscriptions on topic A which it never reads, A is flooded until its publisher stalls; the same client must still receive on topic B what a fresh client publishes there and open a publisher on topic C, within 20 s. Plus zero-window cells: 1 or 3 peers register on topic A in each of the four roles over connections that grant the server no flow-control credit on their streams (the answer to their registration - Ok, or the refusal when topic A already exists with the other messaging pattern - can never be written); a fresh client must still round-trip a message on topic B. non-trivial = N > 0",
         "fault = misbehaving participants of one topic; enumerated exhaustively over the listed N and orders",
         json!({}),
         replaying,
